@@ -24,6 +24,14 @@ Theorem pr_constants :
 Proof. exact (conj p_constants g_constants). Qed.
 Print Assumptions pr_constants.
 
+(* alpha depends on T: it is recomputed exactly when the temperature it was computed for (pr_tk, stored at both places) differs *)
+Theorem alpha_refreshed_when_temperature_changes :
+  (forall tk T, evalB (env_of [tk; T]) p_alpha_refresh_guard <-> tk <> T) /\
+  (forall tk T, evalB (env_of [tk; T]) g_alpha_refresh_guard <-> tk <> T) /\
+  map snd p_pr_tk_stores = ["TK"%string; "TK"%string] /\ map snd g_pr_tk_stores = ["TK"%string; "TK"%string].
+Proof. exact p_g_alpha_refresh. Qed.
+Print Assumptions alpha_refreshed_when_temperature_changes.
+
 (* the gas constant of the code (R_LITER_ATM) is the physical one to 3e-5 relative: inside the property's 1e-4 *)
 Theorem gas_constant_within_tolerance :
   Rabs (evalR (env_of []) p_R - R_gas) <= 3 / 100000 * R_gas /\ Rabs (evalR (env_of []) g_R - R_gas) <= 3 / 100000 * R_gas.
